@@ -12,7 +12,9 @@ import (
 
 	"google.golang.org/grpc"
 
+	"github.com/KevoDB/kevo/pkg/engine"
 	"github.com/KevoDB/kevo/pkg/grpc/service"
+	"github.com/KevoDB/kevo/pkg/replication"
 	"github.com/KevoDB/kevo/pkg/transaction"
 	"github.com/KevoDB/kevo/pkg/zzverif/vsched"
 	pb "github.com/KevoDB/kevo/proto/kevo"
@@ -468,6 +470,9 @@ func c19Run(dir string, prog []c19Req, res *fw.Result) (problem, key string, out
 }
 
 func c19Unit(unit string, env *fw.Env) *fw.Result {
+	if unit == "node-info" {
+		return c19NodeInfoUnit(unit, env)
+	}
 	res := fw.NewResult()
 	alpha := c19Alphabet(env.Thorough)
 	depth := 4
@@ -544,7 +549,7 @@ func init() {
 			for i := range c19Alphabet(tier == "thorough") {
 				us = append(us, fmt.Sprintf("seq/%d", i))
 			}
-			return us
+			return append(us, "node-info")
 		},
 		Run:    c19Unit,
 		Replay: func(v *fw.Violation) string { return fmt.Sprintf("re-run: kvcheck one C19 quick %s\nwitness: %v", v.Unit, v.Witness) },
@@ -559,4 +564,87 @@ func pbBytes(s string) []byte {
 		return nil
 	}
 	return []byte(s)
+}
+
+// node info: the service's answer against the embedded provider's, for every combination of a small set of provider
+// answers (role x primary address x replica list of 0-2 entries with all-distinct field values x last sequence x
+// read-only flag). Differential, field by field.
+type nodeInfoStub struct {
+	role, addr string
+	reps       []replication.ReplicationNodeInfo
+	seq        uint64
+	ro         bool
+}
+
+func (n *nodeInfoStub) GetNodeInfo() (string, string, []replication.ReplicationNodeInfo, uint64, bool) {
+	return n.role, n.addr, n.reps, n.seq, n.ro
+}
+
+func c19NodeInfoUnit(unit string, env *fw.Env) *fw.Result {
+	res := fw.NewResult()
+	dir := filepath.Join(fw.Scratch("c19n"), "db")
+	e, err := engine.NewEngineFacade(dir)
+	if err != nil {
+		res.HarnessErr = err.Error()
+		return res
+	}
+	defer e.Close()
+	repA := replication.ReplicationNodeInfo{Address: "10.0.0.1:7001", LastSequence: 40, Available: true, Region: "eu", Meta: map[string]string{"k": "v"}}
+	repB := replication.ReplicationNodeInfo{Address: "10.0.0.2:7002", LastSequence: 7, Available: false, Region: "", Meta: nil}
+	lists := [][]replication.ReplicationNodeInfo{nil, {}, {repA}, {repB}, {repA, repB}, {repB, repA}}
+	for _, role := range []string{"primary", "replica", "standalone", "", "other"} {
+		for _, addr := range []string{"", "10.9.9.9:50051"} {
+			for li, reps := range lists {
+				for _, seq := range []uint64{0, 120, ^uint64(0)} {
+					for _, ro := range []bool{false, true} {
+						stub := &nodeInfoStub{role, addr, reps, seq, ro}
+						srv := service.NewKevoServiceServer(e, transaction.NewRegistry(), stub)
+						got, err := srv.GetNodeInfo(context.Background(), &pb.GetNodeInfoRequest{})
+						res.Evaluations++
+						res.States++
+						res.Transitions++
+						res.Traces++
+						if len(reps) > 0 {
+							res.Nontrivial++
+						}
+						desc := fmt.Sprintf("provider answers role=%q primary=%q replicas#%d last=%d read_only=%v", role, addr, li, seq, ro)
+						viol := func(field, detail string) {
+							res.Violate(fw.FP("C19", "node-info", field), "node-info-differs\n"+desc+": "+detail, unit, map[string]any{"kind": "node-info", "desc": desc, "field": field})
+						}
+						if err != nil || got == nil {
+							viol("error", fmt.Sprintf("GetNodeInfo failed: %v", err))
+							continue
+						}
+						wantRole := map[string]pb.GetNodeInfoResponse_NodeRole{"primary": pb.GetNodeInfoResponse_PRIMARY, "replica": pb.GetNodeInfoResponse_REPLICA}[role] // anything else is standalone
+						if role != "primary" && role != "replica" {
+							wantRole = pb.GetNodeInfoResponse_STANDALONE
+						}
+						if got.NodeRole != wantRole {
+							viol("role", fmt.Sprintf("role %v, embedded %q", got.NodeRole, role))
+						}
+						if got.PrimaryAddress != addr {
+							viol("primary-address", fmt.Sprintf("primary address %q, embedded %q", got.PrimaryAddress, addr))
+						}
+						if got.LastSequence != seq {
+							viol("last-sequence", fmt.Sprintf("last sequence %d, embedded %d", got.LastSequence, seq))
+						}
+						if got.ReadOnly != ro {
+							viol("read-only", fmt.Sprintf("read_only %v, embedded %v", got.ReadOnly, ro))
+						}
+						if len(got.Replicas) != len(reps) {
+							viol("replica-count", fmt.Sprintf("%d replicas, embedded %d", len(got.Replicas), len(reps)))
+							continue
+						}
+						for i, r := range reps {
+							g := got.Replicas[i]
+							if g.Address != r.Address || g.LastSequence != r.LastSequence || g.Available != r.Available || g.Region != r.Region || fmt.Sprint(g.Meta) != fmt.Sprint(r.Meta) && !(len(g.Meta) == 0 && len(r.Meta) == 0) {
+								viol("replica-entry", fmt.Sprintf("replica %d reported as {%s %d %v %q %v}, embedded {%s %d %v %q %v}", i, g.Address, g.LastSequence, g.Available, g.Region, g.Meta, r.Address, r.LastSequence, r.Available, r.Region, r.Meta))
+							}
+						}
+					}
+				}
+			}
+		}
+	}
+	return res
 }
